@@ -75,11 +75,11 @@ type vgEvent struct {
 	FailDial int       `json:"faildial"`
 	E        string    `json:"e"`
 	Name     string    `json:"name"`
-	Res      string    `json:"res"`    // OK | ERR | PANIC | HANG | SKIPPED
-	Srv      string    `json:"srv"`    // rpc: endpoint whose server answered
-	Dials    []vgDial  `json:"dials"`  // dials made by this operation, in order
-	Conns    []vgConn  `json:"conns"`  // every connection handed out so far: endpoint, Shutdown?
-	Pools    []string  `json:"pools"`  // endpoints that have a pool (white-box), sorted
+	Res      string    `json:"res"`     // OK | ERR | PANIC | HANG | SKIPPED
+	Srv      string    `json:"srv"`     // rpc: endpoint whose server answered
+	Dials    []vgDial  `json:"dials"`   // dials made by this operation, in order
+	Conns    []vgConn  `json:"conns"`   // every connection handed out so far: endpoint, Shutdown?
+	Pools    []string  `json:"pools"`   // endpoints that have a pool (white-box), sorted
 	Routes0  []vgRoute `json:"routes0"` // per MultiEndpoint: Current() right when the operation returned
 	Routes   []vgRoute `json:"routes"`  // ... after the system settled
 	Settled  bool      `json:"settled"`
